@@ -39,6 +39,8 @@ pub enum Flavour {
     /// `ProgressBar::hidden()` as it comes (no with_finish, length set afterwards) against a visible bar that
     /// was not configured either: the defaults of a hidden bar are those of a visible one
     HiddenConstructor,
+    /// a visible bar that is given `ProgressDrawTarget::hidden()` with set_draw_target (at Op::Remove)
+    SwitchedToHidden,
 }
 
 #[derive(Clone, Debug, PartialEq)]
@@ -179,12 +181,13 @@ impl Hist for C06 {
             BOp::AbandonMsg("ab"),
             BOp::FinishUsingStyle,
             BOp::UpdatePos(4),
+            BOp::WrapIter3,
         ];
         if self.reduced {
             v.retain(|o| !matches!(o, BOp::Inc(7) | BOp::Dec(1) | BOp::IncLen(_) | BOp::Style(_) | BOp::ResetEta | BOp::AbandonMsg(_) | BOp::FinishMsg(_) | BOp::UpdatePos(_) | BOp::Prefix(_)));
         }
         let mut out: Vec<Op> = v.into_iter().map(Op::B).collect();
-        if matches!(self.flavour, Flavour::RemovedFromHiddenMultiThenShown | Flavour::NotATtyMulti | Flavour::MovedToHiddenMulti | Flavour::StderrBecomesTty) && !prefix.iter().any(|o| matches!(o, Op::Remove)) {
+        if matches!(self.flavour, Flavour::RemovedFromHiddenMultiThenShown | Flavour::NotATtyMulti | Flavour::MovedToHiddenMulti | Flavour::StderrBecomesTty | Flavour::SwitchedToHidden) && !prefix.iter().any(|o| matches!(o, Op::Remove)) {
             out.insert(0, Op::Remove);
         }
         if matches!(self.flavour, Flavour::HiddenMulti | Flavour::NotATtyMulti) {
@@ -229,6 +232,7 @@ impl Hist for C06 {
         let mk = || ProgressBar::with_draw_target(Some(5), ProgressDrawTarget::hidden()).with_style(style(2)).with_finish(self.fin.real());
         let subject = match self.flavour {
             Flavour::HiddenTarget => mk(),
+            Flavour::SwitchedToHidden => ProgressBar::with_draw_target(Some(5), ProgressDrawTarget::term_like(spy.boxed())).with_style(style(2)).with_finish(self.fin.real()),
             Flavour::HiddenConstructor => {
                 let b = ProgressBar::hidden().with_style(style(2));
                 b.set_length(5);
@@ -323,6 +327,9 @@ impl Hist for C06 {
                     }
                     pty_drain();
                 }
+                Op::Remove if self.flavour == Flavour::SwitchedToHidden => {
+                    subject.set_draw_target(ProgressDrawTarget::hidden());
+                }
                 Op::Remove if self.flavour == Flavour::MovedToHiddenMulti => {
                     let _ = hidden_mp.as_ref().unwrap().add(subject.clone());
                 }
@@ -361,7 +368,7 @@ impl Hist for C06 {
             if i + 1 == hist.len() {
                 // silence
                 let silent = match self.flavour {
-                    Flavour::RemovedFromMulti | Flavour::MovedToHiddenMulti => removed_calls.map_or(true, |c| spy.calls() == c),
+                    Flavour::RemovedFromMulti | Flavour::MovedToHiddenMulti | Flavour::SwitchedToHidden => removed_calls.map_or(true, |c| spy.calls() == c),
                     // hidden until the removal; whatever giving the MultiProgress a terminal does is
                     // not the bar's doing, every later call on the removed bar must be silent
                     Flavour::RemovedFromHiddenMultiThenShown => removed_calls.map_or(spy.calls() == 0, |c| spy.calls() == c),
@@ -405,9 +412,9 @@ impl Hist for C06 {
 
 fn configs(tier: Tier) -> Vec<(C06, usize)> {
     let mut v = Vec::new();
-    let flavours = [Flavour::HiddenTarget, Flavour::NotATty, Flavour::HiddenMulti, Flavour::RemovedFromMulti, Flavour::NotATtyHz, Flavour::RemovedFromHiddenMultiThenShown, Flavour::NotATtyMulti, Flavour::ReadWritePair, Flavour::StdoutNotATtyStderrTty, Flavour::MovedToHiddenMulti, Flavour::StderrBecomesTty, Flavour::BufferedNotATty, Flavour::HiddenConstructor];
+    let flavours = [Flavour::HiddenTarget, Flavour::NotATty, Flavour::HiddenMulti, Flavour::RemovedFromMulti, Flavour::NotATtyHz, Flavour::RemovedFromHiddenMultiThenShown, Flavour::NotATtyMulti, Flavour::ReadWritePair, Flavour::StdoutNotATtyStderrTty, Flavour::MovedToHiddenMulti, Flavour::StderrBecomesTty, Flavour::BufferedNotATty, Flavour::HiddenConstructor, Flavour::SwitchedToHidden];
     for (k, &flavour) in flavours.iter().enumerate() {
-        let fin = [Fin::AndLeave, Fin::WithMessage, Fin::AndClear, Fin::AbandonWithMessage, Fin::Abandon, Fin::AndLeave, Fin::WithMessage, Fin::AndClear, Fin::AndLeave, Fin::Abandon, Fin::WithMessage, Fin::AndLeave, Fin::AndClear][k];
+        let fin = [Fin::AndLeave, Fin::WithMessage, Fin::AndClear, Fin::AbandonWithMessage, Fin::Abandon, Fin::AndLeave, Fin::WithMessage, Fin::AndClear, Fin::AndLeave, Fin::Abandon, Fin::WithMessage, Fin::AndLeave, Fin::AndClear, Fin::AndLeave][k];
         match tier {
             Tier::Quick => {
                 v.push((C06 { flavour, fin, reduced: false }, if flavour == Flavour::RemovedFromMulti { 3 } else { 2 }));
